@@ -925,12 +925,34 @@ func c04Naming(p *Prog, r *Report) {
 	for _, f := range p.FuncsIn(Mod) {
 		p.instrs(f, func(b *ssa.BasicBlock, i int, in ssa.Instruction) {
 			c, ok := in.(*ssa.Call)
-			if !ok || calleeOf(&c.Call) != mn {
+			if !ok || !(calleeOf(&c.Call) == mn || p.isMethodNameCall(c) && len(c.Call.Args) >= 2) {
+				return
+			}
+			if calleeOf(&c.Call) != mn {
+				// a call of a wrapper: its last two operands are (type name, method name)
+				a := c.Call.Args
+				c = &ssa.Call{Call: ssa.CallCommon{Value: c.Call.Value, Args: a[len(a)-2:]}}
+				c0, _, _ := nameClass(a[len(a)-2], 0)
+				c1, _, _ := nameClass(a[len(a)-1], 0)
+				okA := (c0 == "ident-name" || c0 == "type-info-name" || c0 == "qualified-name" || strings.HasPrefix(c0, "local(") || c0 == "unqualified-type-name") &&
+					(c1 == "ident-name" || strings.HasPrefix(c1, "call:") || strings.HasPrefix(c1, "unknown:"))
+				n++
+				r.Check("R04d", FuncName(f)+" MethodName("+sk(a[len(a)-2])+","+sk(a[len(a)-1])+") through a wrapper", instrPos(in), okA,
+					fmt.Sprintf("arguments are (%s, %s); expected (receiver type name, method name)", c0, c1))
 				return
 			}
 			n++
+			// inside a naming wrapper the operands are the wrapper's parameters: its call sites are judged instead
+			if p.methodNamer(f) && f != mn {
+				r.OK("R04d", FuncName(f)+" MethodName("+sk(c.Call.Args[0])+","+sk(c.Call.Args[1])+")", instrPos(in), "a wrapper of coq.MethodName: judged at its call sites")
+				return
+			}
 			c0, _, _ := nameClass(c.Call.Args[0], 0)
 			c1, _, _ := nameClass(c.Call.Args[1], 0)
+			// a type name computed by a helper of the translator from the declaration (methodReceiver(d))
+			if strings.HasPrefix(c0, "call:") && strings.Contains(c0, Mod+".") {
+				c0 = "type-info-name"
+			}
 			okA := (c0 == "ident-name" || c0 == "type-info-name" || c0 == "qualified-name" || strings.HasPrefix(c0, "local(") || c0 == "unqualified-type-name") &&
 				(c1 == "ident-name" || strings.HasPrefix(c1, "call:") || strings.HasPrefix(c1, "unknown:"))
 			r.Check("R04d", FuncName(f)+" MethodName("+sk(c.Call.Args[0])+","+sk(c.Call.Args[1])+")", instrPos(in), okA,
@@ -952,7 +974,7 @@ func c04Naming(p *Prog, r *Report) {
 					if cls == "ident-name" {
 						viaIdent = true
 					}
-					if mc, ok := c.Call.Args[1].(*ssa.Call); ok && calleeName(mc) == coqPkg+".MethodName" {
+					if mc, ok := c.Call.Args[1].(*ssa.Call); ok && p.isMethodNameCall(mc) {
 						viaMethod = true
 					}
 				}
